@@ -185,7 +185,7 @@ def judge(ctx, module, cfg, events, shards=16, env=None, timeout=3000, id_key="i
             p = os.path.join(td, "ev%d.ndjson" % k)
             with open(p, "w") as f:
                 for e in part:
-                    f.write(json.dumps({k: v for k, v in e.items() if v is not None}, separators=(",", ":")) + "\n")
+                    f.write(json.dumps(_nonull(e), separators=(",", ":")) + "\n")
             files.append((p, len(part)))
         jobs = []
         for p, n in files:
@@ -219,6 +219,15 @@ def import_hl7apy():
         sys.path.insert(0, REPO)
     import hl7apy  # noqa
     return hl7apy
+
+
+def _nonull(x):
+    """TLC's JSON reader rejects null: drop None-valued keys, turn None items into empty strings."""
+    if isinstance(x, dict):
+        return {k: _nonull(v) for k, v in x.items() if v is not None}
+    if isinstance(x, (list, tuple)):
+        return [_nonull(v) if v is not None else "" for v in x]
+    return x
 
 
 def pmap(func, items, procs=16):
